@@ -4,7 +4,9 @@
    (its glue + Go's time package) to these functions on every sampled
    instant, field tuple and setter history. *)
 From Coq Require Import ZArith List.
+From Coq Require Import Lia.
 From Otto Require Import C12.Spec C12.Model C12.Proofs.
+From Otto Require C12.Corr.
 Import ListNotations.
 Open Scope Z_scope.
 
@@ -86,3 +88,19 @@ Print Assumptions C12_setfullyear_invalid_refuted.
 (* non-vacuity: the hypotheses above are met by concrete values *)
 Example C12_iso_hyp_met : 0 <= YearFromTime 1700000000000 <= 9999 /\ parseISO (toISO 1700000000000) = Some 1700000000000.
 Proof. vm_compute. split; [split; discriminate | reflexivity]. Qed.
+
+(* otto's deviation on argument conversion: the setters stop converting at the first non-finite argument and convert
+   nothing on an invalid Date; ES5 converts every argument (observable through valueOf) *)
+Theorem C12_setter_conversions_refuted :
+  (exists args, C12.Corr.conv_model (Some 0%Z) args <> C12.Corr.conv_spec (Some 0%Z) args) /\
+  (exists args, C12.Corr.conv_model None args <> C12.Corr.conv_spec None args) /\
+  (forall t args, (forall a, In a args -> a <> None) -> C12.Corr.conv_model (Some t) args = C12.Corr.conv_spec (Some t) args).
+Proof.
+  split; [exists [None; Some 1%Z]; vm_compute; congruence|].
+  split; [exists [Some 1%Z]; vm_compute; congruence|].
+  intros t args H. unfold C12.Corr.conv_model, C12.Corr.conv_spec.
+  induction args as [|a l IH]; [reflexivity|].
+  destruct a as [z|]; [|exfalso; apply (H None); [now left|reflexivity]].
+  cbn [C12.Corr.conv_upto length]. rewrite IH; [lia|]. intros b Hb. apply H. now right.
+Qed.
+Print Assumptions C12_setter_conversions_refuted.
